@@ -206,15 +206,31 @@ def selftest_mutants(rest):
     check, run against a scratch copy of /repo (never /repo itself)."""
     only = None
     tier = 'quick'
+    resume = '--resume' in rest        # skip patches already recorded caught
+    retry = '--retry-missed' in rest   # only patches recorded as not caught
+    no_slices = '--no-slices' in rest  # without the configuration slices
     for a in rest:
         if a.startswith('--only='):
             only = a[7:].split(',')
         if a.startswith('--tier='):
             tier = a[7:]
+    recorded = {}
+    if resume or retry:
+        try:
+            with open(os.path.join(core.EVIDENCE_DIR, 'sensitivity.json'),
+                      encoding='utf-8') as fh:
+                recorded = {r['mutant']: r['status']
+                            for r in json.load(fh).get('results', [])}
+        except (OSError, ValueError):
+            recorded = {}
     results = []
     t0 = time.time()
     for name, prop, patch in _patch_list():
         if only and not any(o in name for o in only):
+            continue
+        if resume and recorded.get(name) == 'caught':
+            continue
+        if retry and recorded.get(name, 'caught') == 'caught':
             continue
         if prop not in registry.CHECKS:
             log('selftest-mutants: %s: property %s not claimed, skipped' % (
@@ -243,6 +259,8 @@ def selftest_mutants(rest):
             env['PICOSIM_REPO'] = dst
             env['PICOSIM_NO_DET'] = '1'
             env['PICOSIM_MAX_REPORTS'] = '2'
+            if no_slices:
+                env['PICOSIM_NO_OPT'] = '1'
             env['PICOSIM_EVIDENCE_DIR'] = os.path.join(scratch, 'evidence')
             env['PICOSIM_REPLAY_DIR'] = os.path.join(scratch, 'replays')
             t1 = time.time()
@@ -262,6 +280,7 @@ def selftest_mutants(rest):
                             ('harness-error' if p.returncode == 2
                              else 'MISSED'),
                             'classes': cls[:3],
+                            'configuration_slices': not no_slices,
                             'wall_s': round(time.time() - t1, 1)})
             log('selftest-mutants: %-50s %s %s %s' % (
                 name, prop, results[-1]['status'], cls[:1]))
